@@ -70,6 +70,9 @@ pub enum Body {
     UnordAdd(Vec<Dep>),
     /// reads the dependency, ignores its value
     ConstRead(Dep),
+    /// (base + sum of the dependencies whose guard input is non-zero or
+    /// absent) % 5 — used for cyclic programs (C06)
+    Edges(Val, Vec<(Option<u8>, Dep)>),
 }
 
 impl Body {
@@ -80,6 +83,16 @@ impl Body {
             Body::Add(a, b) => vec![*a, *b],
             Body::If(c, a, b) => vec![*c, *a, *b],
             Body::JoinAdd(v) | Body::UnordAdd(v) => v.clone(),
+            Body::Edges(_, es) => {
+                let mut v: Vec<Dep> = Vec::new();
+                for (g, d) in es {
+                    if let Some(g) = g {
+                        v.push(Dep::In(*g));
+                    }
+                    v.push(*d);
+                }
+                v
+            }
         }
     }
 }
@@ -240,8 +253,10 @@ impl Activation {
     fn maybe_fault(&self) {
         let f = *self.sh.fault.lock().unwrap();
         if let Some(f) = f {
+            // persistent from run `on_run` on: executors are pure, a panic
+            // is reproduced by every re-execution until the harness clears it
             if f.key == self.key
-                && f.on_run == self.run
+                && self.run >= f.on_run
                 && f.after_reads == self.reads
             {
                 panic!("{FAULT_MSG}");
@@ -333,6 +348,19 @@ async fn run_body<C: Config>(
             let _ = read(&mut act, eng, d).await;
             0
         }
+        Body::Edges(base, es) => {
+            let mut s = base;
+            for (g, d) in es {
+                let on = match g {
+                    Some(g) => read(&mut act, eng, Dep::In(g)).await != 0,
+                    None => true,
+                };
+                if on {
+                    s = (s + read(&mut act, eng, d).await) % 5;
+                }
+            }
+            s
+        }
         Body::JoinAdd(ds) => {
             let vals = futures::future::join_all(
                 ds.iter().map(|d| read_raw(sh, eng, *d)),
@@ -346,9 +374,9 @@ async fn run_body<C: Config>(
                     val: v,
                 });
                 act.reads += 1;
+                act.maybe_fault();
                 s = (s + v) % 3;
             }
-            act.maybe_fault();
             s
         }
         Body::UnordAdd(ds) => {
@@ -366,9 +394,9 @@ async fn run_body<C: Config>(
                     val: v,
                 });
                 act.reads += 1;
+                act.maybe_fault();
                 s = (s + v) % 3;
             }
-            act.maybe_fault();
             s
         }
     };
